@@ -280,6 +280,9 @@ func c12Setup() {
 }
 
 func TestVerifC12(t *testing.T) {
+	if os.Getenv("VERIF_C12_WORKER") != "" {
+		c12WorkerMain() // part B's worker process (zz_verif_c12_iso_test.go); does not return
+	}
 	c12Setup()
 	if os.Getenv("VERIF_C12_ONLY_B") == "" { // debugging aid
 		c12PartA(t)
